@@ -45,6 +45,21 @@ fn identities(v: &mut Verdicts) {
     let mut inv_q = true;
     for k in 1..=50 { let p = 1.0 - 2f64.powi(-k); let g = guard(|| logistic(logit(p))); if !g.map(|g| (g - p).abs() <= 2f64.powi(-50)).unwrap_or(false) { inv_q = false; worst = json!({"p": fj(p), "got": g.map(fj)}); } }
     v.check(inv_q, "logistic", "inverse-of-logit p-near-1", &nul, worst.clone());
+    // logit on dyadic points next to the ends: logit(1 - 2^-k) = ln(2^k - 1) and logit(2^-k) = -ln(2^k - 1) with 2^k - 1 exact (k <= 53);
+    // subnormal p: logit(p) = ln p to working precision
+    let mut near = true;
+    for k in 1..=53 {
+        let e = (2f64.powi(k) - 1.0).ln();
+        for (p, ex) in [(1.0 - 2f64.powi(-k), e), (2f64.powi(-k), -e)] {
+            let g = guard(|| logit(p));
+            if !g.map(|g| (g - ex).abs() <= 1e-12 * ex.abs().max(1.0)).unwrap_or(false) { near = false; worst = json!({"p": fj(p), "got": g.map(fj), "expected": ex}); }
+        }
+    }
+    for p in [5e-324, 2f64.powi(-1060), 1e-310, 2.2250738585072014e-308] {
+        let g = guard(|| logit(p));
+        if !g.map(|g| g.is_finite() && (g - p.ln()).abs() <= 1e-12 * p.ln().abs()).unwrap_or(false) { near = false; worst = json!({"p": fj(p), "got": g.map(fj), "expected": p.ln()}); }
+    }
+    v.check(near, "logit", "next-to-the-ends", &nul, worst.clone());
     v.check(guard(|| logit(0.5)) == Some(0.0), "logit", "at-half", &nul, json!(guard(|| logit(0.5))));
     v.check(guard(|| logit(0.0)) == Some(f64::NEG_INFINITY) && guard(|| logit(1.0)) == Some(f64::INFINITY), "logit", "end-points", &nul, json!(null));
     for p in [-0.25, 1.25, -1e-300, 1.0000000000000002, f64::NAN] {
